@@ -444,6 +444,14 @@ func replayEnc(line []byte, a *Acc) {
 	}
 }
 
+// values of application types whose text is the string
+type escLabel string
+
+// onlyWriter: an io.Writer with no other method (no WriteString, no ReadFrom)
+type onlyWriter struct{ b []byte }
+
+func (w *onlyWriter) Write(p []byte) (int, error) { w.b = append(w.b, p...); return len(p), nil }
+
 // subst1 maps the non-ASCII placeholder of the specification's alphabet
 func subst1(s string) string {
 	return strings.ReplaceAll(strings.ReplaceAll(s, "~", "é"), "`", "\u00a0")
@@ -565,6 +573,20 @@ func replayEncv(line []byte, a *Acc) {
 			}
 			if !wantErr && string(b) != c.X {
 				one(fmt.Sprintf("encv:%s:bytes:go=%v", c.Kind, c.Go), fmt.Sprintf("%s = %q, specification gives %q", name, b, c.X))
+				continue
+			}
+		}
+		if c.Kind == "xml" && !wantErr {
+			// the writer forms put the same bytes into ANY io.Writer: one that has nothing but Write (a pipe, a hash, a compressor)
+			var ow onlyWriter
+			if e := mv.XmlWriter(&ow); e != nil || string(ow.b) != string(b) {
+				one("encv:writer:bytes", fmt.Sprintf("XmlWriter into a writer that has only Write wrote %q (err %v), Map.Xml() = %q", ow.b, e, b))
+				continue
+			}
+			wi, ei := mv.XmlIndent("", " ")
+			ow.b = nil
+			if e := mv.XmlIndentWriter(&ow, "", " "); (e != nil) != (ei != nil) || (ei == nil && string(ow.b) != string(wi)) {
+				one("encv:writer:bytes", fmt.Sprintf("XmlIndentWriter into a writer that has only Write wrote %q (err %v), Map.XmlIndent = %q (err %v)", ow.b, e, wi, ei))
 				continue
 			}
 		}
@@ -927,6 +949,19 @@ func replayEsc(line []byte, a *Acc) {
 			one("esc:enc:bytes-value:"+pos, fmt.Sprintf("with the value held as []byte Map.Xml = %q (%v), specification %q", tb, terr, expX[pos]))
 			continue
 		}
+		// ... and as a value of a string-kinded application type (rendered with %v, then text like any other)
+		if pos == "elem" || pos == "list" {
+			for ti, tv := range []interface{}{escLabel(l.S)} { // (struct-kinded values go through xml.Marshal: not text)
+				tm := mxj.Map{"a": tv}
+				if pos == "list" {
+					tm = mxj.Map{"a": []interface{}{tv, "x"}}
+				}
+				if tb, terr := tm.Xml(); terr != nil || string(tb) != expX[pos] {
+					one("esc:enc:named-value:"+pos, fmt.Sprintf("with the value held as %s Map.Xml = %q (%v), specification %q", []string{"a named string type", "a fmt.Stringer"}[ti], tb, terr, expX[pos]))
+					break
+				}
+			}
+		}
 		bi, erri := m.XmlIndent("", " ")
 		for i, out := range [][]byte{b, bi} {
 			name := []string{"Xml", "XmlIndent"}[i]
@@ -1035,6 +1070,35 @@ func replayEsc(line []byte, a *Acc) {
 			one("esc:check:silent:MapSeq.XmlIndent:"+pos, fmt.Sprintf("returned ill-formed %q without error", bi))
 		}
 	}
+	// ... and keys that are not XML names (nothing the escaping of VALUES can mend): with the check on, whatever the escaping switch
+	// says, the four encoders alike return an error -- the check is the check's business, not the escaping switch's
+	for _, escOn := range []bool{false, true} {
+		mxj.XMLEscapeChars(escOn)
+		badMaps := map[string]mxj.Map{"key": {"1st a": l.S}, "attr-key": {"a": map[string]interface{}{"-x y": "v", "#text": l.S}}}
+		for pos, m := range badMaps {
+			cases++
+			b, err := m.Xml()
+			bi, erri := m.XmlIndent("", " ")
+			if err == nil && wellFormed(b) != nil {
+				one(fmt.Sprintf("esc:check:silent-key:Map.Xml:%s:esc=%v", pos, escOn), fmt.Sprintf("returned ill-formed %q without error", b))
+			}
+			if erri == nil && wellFormed(bi) != nil {
+				one(fmt.Sprintf("esc:check:silent-key:Map.XmlIndent:%s:esc=%v", pos, escOn), fmt.Sprintf("returned ill-formed %q without error", bi))
+			}
+		}
+		sq := mxj.MapSeq{"1st a": map[string]interface{}{"#text": l.S, "#seq": 0}}
+		var b, bi []byte
+		var err, erri error
+		if p := guard(func() { b, err = sq.Xml(); bi, erri = sq.XmlIndent("", " ") }); p == "" {
+			if err == nil && wellFormed(b) != nil {
+				one(fmt.Sprintf("esc:check:silent-key:MapSeq.Xml:esc=%v", escOn), fmt.Sprintf("returned ill-formed %q without error", b))
+			}
+			if erri == nil && wellFormed(bi) != nil {
+				one(fmt.Sprintf("esc:check:silent-key:MapSeq.XmlIndent:esc=%v", escOn), fmt.Sprintf("returned ill-formed %q without error", bi))
+			}
+		}
+	}
+	mxj.XMLEscapeChars(false)
 	mxj.XmlCheckIsValid(false)
 	// ---- mode 3: decoder-side escaping: decode, encode (raw), decode again reproduces the stored values
 	mxj.XMLEscapeCharsDecoder(true)
@@ -1042,6 +1106,8 @@ func replayEsc(line []byte, a *Acc) {
 		"elem":  {K: "e", Nm: xName{L: []string{"a"}}, Ch: []*xNode{{K: "t", Tx: []string{l.S}}}},
 		"attr":  {K: "e", Nm: xName{L: []string{"a"}}, At: []xAttr{{Nm: xName{L: []string{"x"}}, V: []string{l.S}}}},
 		"mixed": {K: "e", Nm: xName{L: []string{"a"}}, Ch: []*xNode{{K: "t", Tx: []string{l.S}}, {K: "e", Nm: xName{L: []string{"b"}}}}},
+		// a namespace declaration is an attribute like any other (a URI with a query string holds an ampersand)
+		"nsattr": {K: "e", Nm: xName{L: []string{"a"}}, At: []xAttr{{Nm: xName{P: "xmlns", L: []string{"p"}}, V: []string{l.S}}}},
 	}
 	for pos, dn := range docs {
 		cases++
@@ -1060,6 +1126,8 @@ func replayEsc(line []byte, a *Acc) {
 			want = mxj.VerifEscapeChars(trimDoc(l.S))
 		case "attr":
 			got, _ = m.ValueForPath("a.-x")
+		case "nsattr":
+			got, _ = m.ValueForPath("a.-p")
 		case "mixed":
 			got, _ = m.ValueForPath("a.#text")
 			want = mxj.VerifEscapeChars(trimDoc(l.S))
@@ -1088,9 +1156,10 @@ func replayEsc(line []byte, a *Acc) {
 	}
 	// the same clause for the sequence decoder: plain and PREFIXED attribute, element text
 	seqDocs := map[string]*xNode{
-		"elem":  docs["elem"],
-		"attr":  docs["attr"],
-		"pattr": {K: "e", Nm: xName{L: []string{"a"}}, At: []xAttr{{Nm: xName{P: "p", L: []string{"n"}}, V: []string{l.S}}, {Nm: xName{P: "xml", L: []string{"lang"}}, V: []string{l.S}}}},
+		"elem":   docs["elem"],
+		"attr":   docs["attr"],
+		"pattr":  {K: "e", Nm: xName{L: []string{"a"}}, At: []xAttr{{Nm: xName{P: "p", L: []string{"n"}}, V: []string{l.S}}, {Nm: xName{P: "xml", L: []string{"lang"}}, V: []string{l.S}}}},
+		"nsattr": docs["nsattr"],
 	}
 	for pos, dn := range seqDocs {
 		cases++
